@@ -109,6 +109,9 @@ def exhaustive_iter(depth):
                     reqs.append("C09 iter32 %s %s" % (wu(v), p + obs))
     return reqs
 
+# nth / skip with an index near usize::MAX (any offset arithmetic in an `nth` override must not wrap)
+HUGE_NTH = [(1 << 64) - 1, (1 << 64) - 2, 1 << 63, (1 << 63) - 1, 1 << 32, (1 << 32) - 1]
+
 def rand_calls(rng, maxlen=12):
     n = rng.randrange(0, maxlen + 1)
     cs = []
@@ -118,7 +121,7 @@ def rand_calls(rng, maxlen=12):
         elif r < 12: cs.append("b")
         elif r < 14: cs.append("l")
         elif r < 15: cs.append("h")
-        else: cs.append("t%d" % rng.choice([0, 0, 1, 1, 2, 3, rng.randrange(0, 12)]))
+        else: cs.append("t%d" % rng.choice([0, 0, 1, 1, 2, 3, rng.randrange(0, 12), HUGE_NTH[rng.randrange(len(HUGE_NTH))]]))
     r = rng.randrange(4)
     if r == 0: cs.append("L")
     elif r == 1: cs.append("C")
@@ -181,6 +184,13 @@ def gen(rng, tier):
             op = rng.choice(["i.new", "i.from_slice"])
             reqs.append("C09 %s %s %s" % (op, s, w))
             reqs.append("C09 i.assign_from_slice %s %s %s" % (wi(signed(rng, rng.choice(olds))), s, w))
+    # --- iterators: huge nth after every short prefix of next / next_back, then observers
+    for v in iter_values():
+        for pre in ("", "n", "nn", "nnn", "b", "nb", "bn", "nbn", "bb", "nnb"):
+            for k in HUGE_NTH[:3]:
+                for obs in ("l", "n", "b", "L", "C"):
+                    for it in ("iter32", "iter64"):
+                        reqs.append("C09 %s %s %st%d%s" % (it, wu(v), pre, k, obs))
     # --- iterators: exhaustive prefixes, then random call strings
     reqs += exhaustive_iter(7 if thorough else 6)
     ivs = iter_values() + vs
